@@ -1,8 +1,8 @@
 CONSTANTS Alphabet = {97, 44, 34, 10, 13, 9, 92, 233, 1}
           MaxLen = 1
-          Positions = {0, 2, 3, 5, 6, 7}
+          Positions = {0, 3, 6}
           FillPairs = {12}
-          AllPairs = {12, 78}
+          AllPairs = {17}
           Fmts = {1, 2}
           DEVS = {{"csv-bare-cr-unquoted"}, {"csv-header-unquoted"}, {"json-control-chars-raw"}, {"json-key-unescaped"}, {"json-nonfinite-number-raw"}}
 INIT Init
